@@ -244,7 +244,7 @@ def run(ctx: Ctx) -> None:
     je = [c for c in calls(rn) if call_name(c) == "_join_exited"]
     if ok:
         inloop = lambda c: any(a is wl[0] for a in __import__("hcverif.astq", fromlist=["ancestors"]).ancestors(c))
-        ok = len(pop) == 1 and inloop(pop[0]) and [norm(a) for a in pop[0].args] == ["processes", "config", "worker_func", "sockets", "shutdown_event", "ctx"] and any(inloop(c) for c in je) and pop[0].lineno < min(c.lineno for c in je) and not {a for a in guard_atoms(pop[0]) if a[0] != "active"}
+        ok = len(pop) == 1 and inloop(pop[0]) and [norm(a) for a in pop[0].args] == ["processes", "config", "worker_func", "sockets", "shutdown_event", "ctx"] and any(inloop(c) for c in je) and pop[0].lineno < min(c.lineno for c in je) and not {a for a in guard_atoms(pop[0], stop=wl[0]) if a[0] != "active"}
     ctx.check("C18.R7", "run:run", "while active: _populate(...); wait; _join_exited(...)", ok, "an exited worker would not be replaced", wl[0] if wl else rn)
     stop = [n for n in walk_local(rn) if isinstance(n, ast.Assign) and dotted(n.targets[0]) == "active" and norm(n.value) == "False" and ("exitcode != 0", True) in guard_atoms(n)]
     ctx.check("C18.R7", "run:run", "non-zero worker exit code ends the supervisor loop", len(stop) == 1, "a crashing worker must stop the server instead of being restarted forever", stop[0] if stop else rn)
